@@ -104,7 +104,8 @@ prop("C08", "Header maps: accepted iff well-formed, and every field means what t
                   "as unprotected header and inside the protected bstr of a COSE_Encrypt0 with 1 entry in total; "
                   "header maps with exactly 3 entries whose values are integers or byte strings (all integer labels, "
                   "text labels <= 2 bytes): which labels count as repeated, wire order of the extras",
-         "thorough": "<= 3 entries standalone (text <= 3), 2 entries in total inside the carrier",
+         "thorough": "<= 3 entries standalone with text <= 2 bytes, <= 2 entries with text <= 3 bytes, 2 entries in "
+                     "total inside the carrier",
      },
      outside="maps with more entries; content-type text longer than 5 bytes is ASCII only; the claim that the "
              "outcome depends only on the data-model value rests on coset seeing only a ciborium Value (C13)",
